@@ -152,12 +152,30 @@ Definition pos_eqb (a b : pos) : bool := Z.eqb (fst a) (fst b) && Z.eqb (snd a) 
 Definition point_from (body : list stmt) (p : pos) : bool := existsb (pos_eqb p) (node_points body).
 Definition span_from (body : list stmt) (sp : span) : bool := point_from body (fst sp) && point_from body (snd sp).
 
+(* for reported errors the origin is not free: an error that only got the zero Position errpos.AddFilename
+   makes up (file:1:1) has no position of its own.  Real nodes only (the block brackets 13 / 14 of the
+   node dump carry no position) *)
+Definition real_node (n : pnode) : bool := negb (N.eqb (fst (fst n)) 13 || N.eqb (fst (fst n)) 14).
+Definition node_points_strict (body : list stmt) : list pos :=
+  flat_map (fun n : pnode => [snd (fst n); snd n]) (filter real_node (flat_map stmt_nodes body)).
+(* where a reported span can end: at the end of a node, or (the mark of a tag, parser.NewBoolValue(true,
+   gotTag.Start)) at the start of a tag.  The origin is the START of the first statement but the end of
+   nothing, so the made-up zero Position does not pass *)
+Definition node_ends (body : list stmt) : list pos :=
+  flat_map (fun n : pnode => if N.eqb (fst (fst n)) 8 then [snd (fst n); snd n] else [snd n])
+           (filter real_node (flat_map stmt_nodes body)).
+(* protovalidate violations are reported on a child location that sourceSet.field (internal/bcl/parse.go)
+   creates with the parent's start and NO end: a real start with the end left at the origin *)
+Definition err_span_from (body : list stmt) (sp : span) : bool :=
+  existsb (pos_eqb (fst sp)) (node_points_strict body)
+  && (existsb (pos_eqb (snd sp)) (node_ends body) || (pos_eqb (snd sp) pos0 && negb (pos_eqb (fst sp) pos0))).
+
 (* the contract of the walker, as far as positions go: whatever it reports or records was copied from
    a node of the tree it was given (ident.Start/End, val.Position(), decl.Position(), spans between two
    nodes), and an error list is not empty *)
 Definition walk_out_ok (body : list stmt) (w : walk_out) : bool :=
   match w with
-  | WalkErrs es => negb (match es with [] => true | _ => false end) && forallb (span_from body) es
+  | WalkErrs es => negb (match es with [] => true | _ => false end) && forallb (err_span_from body) es
   | WalkFile t lf => forallb (span_from body) (spans t) && forallb ldecl_wf lf
   end.
 
